@@ -81,7 +81,7 @@ __CPROVER_ensures(sq_thrown==0 && gk<comp_n ==> SQ_SAME(self->components[gk], co
 {
 //@BODY file=src/SUNalg.cpp sig=/SU_vector::SU_vector\s*\(\s*const\s+std::vector<double>&\s*comp\s*\)/ part=all rules=common,suv_method
 //@SUB /sqrt\s*\(\s*comp\.size\(\)\s*\)/sq_isqrt(comp_n)/ min=1
-//@SUB /comp\.size\(\)/comp_n/ min=1
+//@SUB /comp\.size\(\)/comp_n/ min=0
 //@SUB /std::copy\(\s*comp\.begin\(\)\s*,\s*comp\.end\(\)\s*,\s*components\s*\)/sq_copyn(comp_d,comp_n,components)/ min=1
 }
 
